@@ -605,5 +605,57 @@ pub proof fn thm_part3_completed_share_on_committed_polynomial<C: Ciphersuite>(k
     lemma_honest_public_package::<C>(pk, r1.dom().insert(own), a);
 }
 
+// ===================================================================================================
+// "any t of them can then sign / reconstruct": the bridges from the DKG output to C03 (thm_reconstruct) and C01 (thm_honest_aggregate_succeeds)
+
+// any >= t key packages of the honest run with distinct identifiers interpolate to F(0) = the sum of the participants' secrets, whose public
+// image G*F(0) is the group key of the composition theorem
+//@serves C07 C01
+pub proof fn thm_honest_dkg_reconstruct<C: Ciphersuite>(ids: Set<Identifier<C>>, f: Polys<C>, t: u16, n: u16, kps: Seq<KeyPackage<C>>)
+    requires dkg_setup::<C>(ids, f, t, n), kp_ids::<C>(kps).no_duplicates(), t <= kps.len(),
+        // what honest_dkg_output says about each package
+        forall|k: int| 0 <= k < kps.len() ==> (#[trigger] kps[k]).signing_share.0.0 == poly::<AL<C>>(dkg_sum_poly::<C>(ids, f, t), kps[k].identifier.0.0),
+    ensures spec_interpolate0::<C>(kps, sorted_seq(kp_ids::<C>(kps).to_set()), kps.len() as nat) == dkg_sum_poly::<C>(ids, f, t)[0],
+        dkg_sum_poly::<C>(ids, f, t)[0] == id_sum::<C>(sorted_seq(ids), const_term::<C>(f)),
+{
+    let srt = sorted_seq(ids);
+    lemma_sorted_exists::<C>(ids);
+    assert forall|k: int| 0 <= k < srt.len() implies f(#[trigger] srt[k]).len() == t as nat by { assert(srt.contains(srt[k])); assert(ids.contains(srt[k])); }
+    lemma_psum_general::<C>(srt, f, t as nat, s0::<C>());
+    lemma_psum_const::<C>(srt, f, t as nat);
+    thm_reconstruct::<C>(kps, dkg_sum_poly::<C>(ids, f, t));
+}
+
+// C01 for keys from the DKG: a signing session among any signer set S of participants of the honest run (|S| >= t) with honest commitments and the
+// shares `sign` computes from the DKG key packages: aggregation with the DKG public key package returns the signature and it verifies.
+// (pk, ids, F) come from the composition theorem: honest_dkg_output gives honest_keys(F, ..) and |F| = t
+//@serves C01 C07
+pub proof fn thm_honest_dkg_then_sign<C: Ciphersuite>(ids: Set<Identifier<C>>, f: Polys<C>, t: u16, n: u16, i: Identifier<C>, kp: KeyPackage<C>, pk: PublicKeyPackage<C>,
+        res: Result<Signature<C>, Error<C>>, sp: SigningPackage<C>, shares: ShareMap<C>, detect: bool, first: bool, nonce: spec_fn(Identifier<C>) -> (Scalar<C>, Scalar<C>))
+    requires honest_dkg_output::<C>(ids, f, t, n, i, kp, pk),
+        sp.signing_commitments@.dom().finite(), sp.signing_commitments@.dom().subset_of(ids), t <= sp.signing_commitments@.dom().len(),
+        crate::vprops_sign::honest_commitments::<C>(sp, nonce), shares.dom() == sp.signing_commitments@.dom(),
+        forall|id: Identifier<C>| #[trigger] sp.signing_commitments@.contains_key(id) ==>
+            shares[id].share.0 == crate::vprops_sign::honest_share::<C>(sp, pk.verifying_key.element.0, dkg_sum_poly::<C>(ids, f, t), nonce, id),
+        // the session does not hit the identity (group key, commitments, group commitment)
+        pk.verifying_key.element.0 != e0::<C>(), !items_have_identity::<C>(sp_items::<C>(sp)), sp_R::<C>(sp, pk.verifying_key.element.0) != e0::<C>(),
+        // the contract of aggregate / aggregate_custom
+        agg_result_is::<C>(res, sp, shares, pk, detect, first),
+    ensures
+        agg_guard_err::<C>(sp, shares, pk, detect) is None,
+        res == Ok::<Signature<C>, Error<C>>(agg_sig::<C>(sp, shares, pk.verifying_key.element.0)),
+        spec_verify::<C>(pk.verifying_key, sp.message@, res->Ok_0) == Ok::<(), Error<C>>(()),
+        agg_culprits::<C>(sp, shares, pk).len() == 0,
+{
+    let bigf = dkg_sum_poly::<C>(ids, f, t);
+    assert forall|id: Identifier<C>| #[trigger] sp.signing_commitments@.contains_key(id) implies pk.verifying_shares@.contains_key(id) by { assert(ids.contains(id)); }
+    crate::vprops_sign::lemma_honest_guard_none::<C>(sp, shares, pk, detect);
+    assert(crate::vprops_sign::honest_keys::<C>(bigf, pk.verifying_key.element.0, pk.verifying_shares@, sp.signing_commitments@.dom())) by {
+        assert forall|id: Identifier<C>| #[trigger] sp.signing_commitments@.dom().contains(id) implies pk.verifying_shares@.contains_key(id)
+            && pk.verifying_shares@[id].0.0 == gmul::<C>(poly::<AL<C>>(bigf, id.0.0)) by { assert(ids.contains(id)); }
+    }
+    crate::vprops_sign::thm_honest_aggregate_succeeds::<C>(res, sp, shares, pk, detect, first, bigf, nonce);
+}
+
 } // verus!
 }
